@@ -1,0 +1,11 @@
+//go:build verif
+
+package http
+
+import "net/http"
+
+// NewWorker returns the production worker over a caller-supplied client
+// (verification harness: the transport is simulated, Process is real).
+func NewWorker(client *http.Client) *HttpWorker {
+	return &HttpWorker{client: client}
+}
